@@ -84,3 +84,180 @@ def u_cores_1(U):
 def _index_of(term):
     """index k of the select term F1[k]"""
     return term.arg(1)
+
+
+# ----------------------------------------------------------------------------------------------
+# order-2 tables: one table per unordered pair of modes, stored in the order (0,1), (0,2), .., (0,d-1), (1,2), .. .
+# `pair_num_to_num` (used by calc_2 / sample) and the running counter of cores_2 (and of build_2, same nested loops) must agree:
+#     2 * number(i1, i2) = i1 * (2d - 3 - i1) + 2 * (i2 - 1)        for 0 <= i1 < i2 < d
+
+def pair_number_twice(d, i1, i2):
+    return i1 * (2 * d - 3 - i1) + 2 * (i2 - 1)
+
+
+@unit('anova.ANOVA.pair_num_to_num', props=('C13',))
+def u_pair_num(U):
+    fn = U.func('anova', 'ANOVA.pair_num_to_num')
+    ex = U.executor(fn)
+    ex.asserts = True               # `assert x1 != x2` is part of the contract here
+    ex.nl_exact = True              # products of two symbolic integers stay exact (polynomial identity, discharged quantifier-free)
+    st = U.state()
+    d, x1, x2 = z3.Ints('d x1 x2')
+    selfrec = st.alloc(VRec({'d': d}))
+    st.vars.update(self=selfrec, x1=x1, x2=x2)
+    res = U.run(ex, st, pre=[d >= 2, 0 <= x1, x1 < d, 0 <= x2, x2 < d])
+    U.cover('precondition-satisfiable', U.pre)
+    lo, hi = z3.If(x1 < x2, x1, x2), z3.If(x1 < x2, x2, x1)
+    for p, o in res:
+        if o.kind == 'raise':
+            U.raise_iff('rejects-only-equal-modes', p, x1 == x2)
+            continue
+        U.raise_iff('accepts-only-different-modes', p, x1 != x2)
+        ok = M.is_num(o.value) and M.is_intsort(Z(o.value))
+        U.post('returns-an-integer', p, z3.BoolVal(ok))
+        if ok:
+            v = Z(o.value)
+            # x1 (2d - 3 - x1) is even: case split on the parity of the smaller mode number (h = lo div 2), so that the floor
+            # division by 2 is exact; the split itself is the first obligation
+            h = z3.Int('h!half')
+            U.post('parity-split-is-exhaustive', list(p.pc) + [h == lo / 2], z3.Or(lo == 2 * h, lo == 2 * h + 1), qf=True)
+            for par in (0, 1):
+                U.post(f'position-of-the-unordered-pair-in-the-lexicographic-enumeration[{"odd" if par else "even"}-first-mode]',
+                       list(p.pc) + [lo == 2 * h + par], 2 * v == pair_number_twice(d, lo, hi), qf=True)
+            U.post('within-the-number-of-pairs', list(p.pc), z3.And(v >= 0, 2 * v < d * (d - 1)), qf=True)
+    U.canary('canary-always-rejects', U.pre, x1 == x2)
+
+
+TCODE = z3.Function('tcode', z3.IntSort(), z3.IntSort())        # which fitted table a reshaped matrix came from
+
+
+def _cores_2_unit(U, only_near):
+    """cores_2(r, only_near): the k-th table handed to _second_order_2_tt is paired with the modes (i1, i2) it was fitted for,
+    i.e. it is the table stored at position pair_num_to_num(i1, i2) (unit anova.ANOVA.pair_num_to_num), and it is reshaped to
+    (n_i1, n_i2).  Contents of the tables and of _second_order_2_tt are left to the bounded suite."""
+    fn = U.func('anova', 'ANOVA.cores_2')
+    st = U.state()
+    d, r = z3.Int('d'), z3.Int('r')
+    shapes = z3.Const('shapes', IA)
+    F2 = z3.Const('f2', IA)                                               # f2_arr[k] is the table with code F2[k]
+    f2ref = st.alloc(VSeq(F2, z3.Int('npairs'), lambda t: _Table((M.OROWS(t),), None, None, 'f', code=t), tag='tables'))
+    selfrec = st.alloc(VRec({'shapes': VArr((d,), shapes, 'ivec', 'i'), 'f2_arr': f2ref, 'd': d}))
+    used_pairs = []
+
+    def mats_kind(ex, s):
+        seq = VSeq(ex.fresh('mats', IA), z3.IntVal(0), lambda t: _Table((M.OROWS(t), M.OCOLS(t)), None, None, 'f', code=TCODE(t)), tag='mats')
+
+        def unwrap(ex_, s_, v, node):
+            v = s_.deref(v)
+            if not (isinstance(v, _Table) and v.ndim == 2):
+                raise M.ContractMismatch('cores_2(): what is appended to mats is not a reshaped order-2 table')
+            c = ex_.fresh_int('mat')
+            s_.assume(TCODE(c) == v.code, M.OROWS(c) == Z(v.shape[0]), M.OCOLS(c) == Z(v.shape[1]))
+            return c
+        seq.unwrap = unwrap
+        return s.alloc(seq)
+
+    def cores_kind(ex, s):
+        seq = VSeq(ex.fresh('c2', IA), z3.IntVal(0), lambda t: M.VOpaque('tt'), tag='tts')
+        seq.unwrap = lambda ex_, s_, v, node: ex_.fresh_int('tt')
+        return s.alloc(seq)
+
+    def c_second(ex, s, a, kw, node):
+        mat, i1, i2 = s.deref(a[0]), Z(ex.need_num(s, a[1], node)), Z(ex.need_num(s, a[2], node))
+        if not isinstance(mat, _Table) or mat.ndim != 2:
+            raise M.ContractMismatch('cores_2(): the matrix handed to _second_order_2_tt is not a reshaped order-2 table')
+        ex.oblige(s, 'call-pre', '_second_order_2_tt: modes in range and ordered', z3.And(0 <= i1, i1 < i2, i2 < d), node)
+        ex.oblige(s, 'call-pre', '_second_order_2_tt: one row per index of the first mode, one column per index of the second',
+                  z3.And(Z(mat.shape[0]) == shapes[i1], Z(mat.shape[1]) == shapes[i2]), node)
+        want = ex.fresh_int('pos')
+        s.assume(2 * want == pair_number_twice(d, i1, i2))                 # definition of the storage position of the pair
+        ex.oblige(s, 'post', 'table-is-the-one-fitted-for-this-pair-of-modes', mat.code == F2[want], node, assume=False)
+        used_pairs.append((i1, i2))
+        return s.alloc(VSeq(ex.fresh('C2', T.TT), d, M.mk_core, 'core'))
+
+    ms, ks = z3.Int('m!q'), z3.Int('k!q')
+    # the enumeration of the pairs (i1 < i2) in storage order, defined by its successor rule (a recursive definition over the
+    # position; the multi-pattern mentions both positions, so instantiation creates no new terms)
+    E1, E2 = z3.Function('pair_first', z3.IntSort(), z3.IntSort()), z3.Function('pair_second', z3.IntSort(), z3.IntSort())
+    ENUM = [E1(0) == 0, E2(0) == 1,
+            z3.ForAll([ms, ks], z3.Implies(z3.And(ms >= 0, ks == ms + 1),
+                                           z3.And(E1(ks) == z3.If(E2(ms) + 1 < d, E1(ms), E1(ms) + 1),
+                                                  E2(ks) == z3.If(E2(ms) + 1 < d, E2(ms) + 1, E1(ms) + 2))),
+                      patterns=[z3.MultiPattern(E1(ms), E1(ks)), z3.MultiPattern(E2(ms), E2(ks)), z3.MultiPattern(E1(ms), E2(ks)),
+                                z3.MultiPattern(E2(ms), E1(ks))])]
+
+    def mats_facts(s, upto):
+        """mats[m] for m < upto is the table stored at position m, reshaped to the mode sizes of the m-th pair."""
+        mseq = s.deref(s.vars['mats'])
+        return [('one-matrix-per-processed-pair', mseq.n == upto),
+                ('matrix-m-is-table-m', z3.ForAll([ms], z3.Implies(z3.And(0 <= ms, ms < upto), TCODE(mseq.arr[ms]) == F2[ms]), patterns=[mseq.arr[ms]])),
+                ('matrix-m-has-the-mode-sizes-of-the-m-th-pair',
+                 z3.ForAll([ms], z3.Implies(z3.And(0 <= ms, ms < upto),
+                                            z3.And(M.OROWS(mseq.arr[ms]) == shapes[E1(ms)], M.OCOLS(mseq.arr[ms]) == shapes[E2(ms)])),
+                           patterns=[mseq.arr[ms]]))]
+
+    def inv_outer(first):
+        def f(ex, s, j):                  # j = i1: all pairs with a smaller first mode are done
+            num = Z(s.vars['num'])
+            out = [('counter-is-the-number-of-pairs-with-smaller-first-mode', 2 * num == j * (2 * d - 1 - j)), ('counter-non-negative', num >= 0),
+                   ('next-pair-in-storage-order-is-(i1,i1+1)', z3.And(E1(num) == j, E2(num) == j + 1))]
+            out += mats_facts(s, num) if first else [(l + '(kept)', g) for l, g in mats_facts(s, s.deref(s.vars['mats']).n)][1:]
+            if not first:
+                out.append(('all-matrices-built', 2 * s.deref(s.vars['mats']).n == d * (d - 1)))
+            return out
+        return f
+
+    def inv_inner(first):
+        def f(ex, s, j):                  # i2 = i1 + 1 + j
+            num, i1 = Z(s.vars['num']), Z(s.vars['i1'])
+            nxt = z3.If(i1 + 1 + j < d, z3.And(E1(num) == i1, E2(num) == i1 + 1 + j), z3.And(E1(num) == i1 + 1, E2(num) == i1 + 2))
+            out = [('counter-is-the-position-of-the-current-pair', 2 * num == i1 * (2 * d - 1 - i1) + 2 * j), ('first-mode-in-range', z3.And(0 <= i1, i1 < d - 1)),
+                   ('counter-non-negative', num >= 0), ('current-pair-is-the-one-at-the-counter-position', nxt)]
+            out += mats_facts(s, num) if first else [(l + '(kept)', g) for l, g in mats_facts(s, s.deref(s.vars['mats']).n)][1:]
+            if not first:
+                out.append(('all-matrices-built', 2 * s.deref(s.vars['mats']).n == d * (d - 1)))
+            return out
+        return f
+
+    loops = {0: {'inv': inv_outer(True)}, 1: {'inv': inv_inner(True)}, 2: {'inv': inv_outer(False)}, 3: {'inv': inv_inner(False)}}
+    ex = U.executor(fn, loops=loops, callees={'anova._second_order_2_tt': c_second}, axioms=ENUM, type_hints={'mats': mats_kind, 'cores': cores_kind})
+    ex.nl_exact = True
+    st.vars.update(self=selfrec, r=r, only_near=only_near)
+    t = z3.Int('t!c2')
+    pre = [d >= 2, r >= 1, st.heap[f2ref.oid].n * 2 == d * (d - 1),
+           z3.ForAll([t], z3.Implies(z3.And(0 <= t, t < d), shapes[t] >= 1), patterns=[shapes[t]])]
+    res = U.run(ex, st, pre=pre)
+    U.cover('precondition-satisfiable', U.pre)
+    for p, o in res:
+        if o.kind != 'return':
+            U.post('no-exception', p, False)
+    U.post('every-table-goes-through-_second_order_2_tt', U.pre, z3.BoolVal(len(used_pairs) >= 1))
+
+
+class _Table(VArr):
+    def __init__(self, shape, t=None, tag=None, dtype='f', note='', code=None):
+        super().__init__(shape, t, tag, dtype, note)
+        self.code = code
+
+
+@unit('anova.ANOVA.cores_2.pairing', props=('C13',))
+def u_cores_2(U):
+    _cores_2_unit(U, False)
+
+
+_orig_method = M.method
+
+
+def _method(ex, st, recv, name, args, kwargs, node):
+    r = st.deref(recv)
+    if isinstance(r, _Table) and name == 'reshape':
+        shp = st.deref(args[0]) if len(args) == 1 else VTuple(list(args))
+        if isinstance(shp, (VTuple, VList)) and len(shp.items) == 2 and isinstance(kwargs.get('order', VStr('C')), VStr) \
+                and kwargs.get('order', VStr('C')).concrete() == 'C':
+            M.used('table.reshape((n1, n2), order="C") -> n1 x n2 matrix of the same table (row-major: entry [x1, x2] = table[x1 * n2 + x2])')
+            return _Table((shp.items[0], shp.items[1]), None, None, 'f', code=r.code)
+        raise M.Unsupported(f'reshape of an order-2 table at line {node.lineno}')
+    return _orig_method(ex, st, recv, name, args, kwargs, node)
+
+
+M.method = _method
